@@ -14,11 +14,28 @@ UNSUPPORTED = re.compile(r"is not currently supported by Kani|unsupported|Unsupp
 
 
 def _limits(mem_gb):
+    # own session so that the whole tree can be killed; memory is policed by the RSS watchdog below
+    # (an address-space rlimit on the whole tree made the multi-threaded kani-driver itself abort with
+    # "memory allocation failed" while assembling its JSON export, after all harnesses had finished)
     def f():
-        b = int(mem_gb * (1 << 30))
-        resource.setrlimit(resource.RLIMIT_AS, (b, b))
         os.setsid()
     return f
+
+
+def _watchdog(stop, mem_gb, killed):
+    """Kill any cbmc process whose resident set exceeds mem_gb (62 GB box, no swap, -j 14)."""
+    import threading
+    lim_kb = int(mem_gb * 1024 * 1024)
+    while not stop.wait(5.0):
+        try:
+            out = subprocess.run(["ps", "-eo", "pid,rss,comm"], stdout=subprocess.PIPE, text=True).stdout
+            for ln in out.splitlines()[1:]:
+                parts = ln.split()
+                if len(parts) >= 3 and parts[2] == "cbmc" and int(parts[1]) > lim_kb:
+                    os.kill(int(parts[0]), 9)
+                    killed.append(int(parts[0]))
+        except Exception:
+            pass
 
 
 def env_base():
@@ -138,7 +155,7 @@ def parse_export(path, names):
     return res
 
 
-def run_kani(names, tag, jobs=14, timeout_s=300, mem_gb=24, log=None, playback=False):
+def run_kani(names, tag, jobs=14, timeout_s=300, mem_gb=16, log=None, playback=False):
     """One cargo-kani invocation over `names`. Returns (dict name->HarnessResult, stdout text, wall)."""
     os.makedirs(BUILD, exist_ok=True)
     tdir = os.path.join(BUILD, tag)
@@ -159,6 +176,11 @@ def run_kani(names, tag, jobs=14, timeout_s=300, mem_gb=24, log=None, playback=F
     for n in names:
         cmd += ["--harness", MOD + n]
     t0 = time.time()
+    import threading
+    stop = threading.Event()
+    killed = []
+    wd = threading.Thread(target=_watchdog, args=(stop, mem_gb, killed), daemon=True)
+    wd.start()
     p = subprocess.Popen(cmd, cwd=KANI_DIR, env=env_base(), stdout=subprocess.PIPE, stderr=subprocess.STDOUT,
                          text=True, preexec_fn=_limits(mem_gb))
     try:
@@ -173,6 +195,9 @@ def run_kani(names, tag, jobs=14, timeout_s=300, mem_gb=24, log=None, playback=F
         out, _ = p.communicate()
         out += "\nVERIF: outer timeout\n"
     wall = time.time() - t0
+    stop.set()
+    if killed:
+        out += f"\nVERIF: memory watchdog killed {len(killed)} cbmc process(es) above {mem_gb} GB RSS\n"
     if log:
         with open(log, "a") as f:
             f.write("$ " + " ".join(cmd[:14]) + f" ... ({len(names)} harnesses)\n" + out + "\n")
